@@ -446,6 +446,74 @@ Proof. inversion 1; assumption. Qed.
 Lemma Forall_NH_2 h a b r : Forall (NH h) (a :: b :: r) -> NH h b.
 Proof. inversion 1 as [|? ? _ Hr]; subst. inversion Hr; assumption. Qed.
 
+Lemma NH_trivial h v : has_huge v = false -> NH h v.
+Proof. intro; right; assumption. Qed.
+
+Lemma dict_get_NH h id : forall ks vs x, Forall (NH h) vs -> dict_get id ks vs = Some x -> NH h x.
+Proof.
+  induction ks as [|k ks IH]; intros vs x Hvs E; simpl in E; [discriminate|].
+  destruct vs as [|v0 vs']; [discriminate|]. inversion Hvs; subst.
+  destruct (N.eqb id k); [inversion E; subst; assumption|eapply IH; eassumption].
+Qed.
+
+Lemma index_list_NH h (l : list value) z x : Forall (NH h) l -> index_list l z = Some x -> NH h x.
+Proof.
+  intros Hl E. unfold index_list in E. destruct (_ || _); [discriminate|].
+  apply nth_error_In in E. rewrite Forall_forall in Hl. auto.
+Qed.
+
+Lemma py_getitem_NH h o k x : NH h o -> py_getitem o k = Ok x -> NH h x.
+Proof.
+  intros Ho E. destruct h; [left; reflexivity|].
+  destruct o; simpl in E; try discriminate.
+  - inversion E; subst. right; reflexivity.
+  - destruct (int_key k); [|discriminate]. destruct (in_bounds len z); inversion E; subst. right; reflexivity.
+  - destruct (int_key k); [|discriminate]. destruct (index_list items z) eqn:Ei; inversion E; subst.
+    eapply index_list_NH; [apply NH_items; exact Ho|exact Ei].
+  - destruct (negb (is_hashable k)); [discriminate|]. destruct k; try discriminate. destruct s; try discriminate.
+    destruct (dict_get id keys vals) eqn:Ed; inversion E; subst. eapply (dict_get_NH false id keys vals); [eapply NH_dict_vals; exact Ho|exact Ed].
+  - destruct (int_key k); [|discriminate]. destruct (in_bounds (Z.of_nat len) z); inversion E; subst.
+    destruct Ho as [Ho|Ho]; [discriminate|]. right. simpl in *. apply orb_false_iff in Ho. destruct Ho as [Ho _].
+    apply orb_false_iff in Ho. tauto.
+Qed.
+
+Lemma map_items_NH h key : forall l keys, Forall (NH h) l -> map_items key l = Ok (Some keys) -> Forall (NH h) keys.
+Proof.
+  induction l as [|x r IH]; intros keys Hl E; simpl in E.
+  - inversion E; subst. constructor.
+  - inversion Hl; subst.
+    destruct (map_item key x) as [[y|]|e|] eqn:Ex; simpl in E; try discriminate.
+    destruct (map_items key r) as [[l'|]|e|] eqn:Er; simpl in E; try discriminate.
+    inversion E; subst. constructor; [|eapply IH; eauto].
+    unfold map_item in Ex. destruct x; try discriminate;
+    (destruct (py_getitem _ key) eqn:Eg; inversion Ex; subst; [eapply py_getitem_NH; [|exact Eg]; assumption|right; reflexivity]).
+Qed.
+
+Lemma map_item_errs key x : errs_in (fun e => isT e) (map_item key x).
+Proof.
+  unfold map_item. destruct x; try exact I; try reflexivity;
+  match goal with |- context [py_getitem ?o key] => pose proof (py_getitem_errs o key) as H; destruct (py_getitem o key) end;
+  simpl in *; auto.
+Qed.
+
+Lemma map_items_errs key : forall l, errs_in (fun e => isT e) (map_items key l).
+Proof.
+  induction l as [|x r IH]; simpl; [exact I|].
+  apply errs_in_bind; [apply map_item_errs|]. intros [y|]; [|exact I].
+  apply errs_in_bind; [exact IH|intro; exact I].
+Qed.
+
+Lemma to_liquid_string_errs0 h r : NH h r -> errs_in (LV h) (to_liquid_string r).
+Proof.
+  intro Hr. destruct r; try (apply py_str_errs; assumption). simpl.
+  destruct (huge lo || huge (lo + Z.of_nat len - 1)) eqn:E; [|exact I].
+  destruct Hr as [->|Hr]; [reflexivity|]. simpl in Hr. apply orb_false_iff in Hr. destruct Hr as [Hr H3].
+  apply orb_false_iff in Hr. destruct Hr as [H1 _]. rewrite H1, H3 in E. discriminate.
+Qed.
+
+Lemma all_out_errs h l : Forall (NH h) l -> errs_in (LV h) (all_out l).
+Proof. induction 1; simpl; auto. apply errs_in_bind; [apply to_liquid_string_errs0; assumption|intro; assumption]. Qed.
+
 Lemma eval_filter_errs h p s v args :
   NH h v -> Forall (NH h) args -> errs_in (LVT h) (eval_filter all_fixed p s v args).
 Proof.
@@ -506,7 +574,32 @@ Proof.
     apply errs_in_bind; [|intro; exact I].
     eapply errs_in_mono; [|apply int_arg_errs]. intros e He. unfold LVT, LV.
     apply orb_true_iff in He. destruct He as [->| ->]; [reflexivity|apply orb_true_r].
-  - exact I. - exact I. - exact I. - exact I. - exact I. - exact I. - exact I.
+  - (* SReverse *) apply LV_in_LVT, liquid_filter_errs. destruct args; [exact I|apply arity_LVT].
+  - (* SSortNatural *) apply LV_in_LVT, liquid_filter_errs.
+    pose proof (coerce_seq_NH h v Hv) as Hc.
+    assert (Hplain : errs_in (LVT h) (do _ <- all_str (coerce_seq v); Ok (VList (coerce_seq v)))).
+    { apply errs_in_bind; [apply LV_in_LVT, all_str_errs; assumption|intro; exact I]. }
+    destruct args as [|key [|b r]]; try apply arity_LVT; [exact Hplain|].
+    destruct (py_truthy key); [|exact Hplain].
+    apply errs_in_bind; [apply py_str_LVT; eapply Forall_NH_1; eassumption|intro].
+    pose proof (map_items_errs (match key with VStr _ _ => key | _ => some_str end) (coerce_seq v)) as Hm.
+    destruct (map_items _ (coerce_seq v)) as [[keys|]|e|] eqn:Em; simpl in Hm; try contradiction; try exact I.
+    + apply errs_in_bind; [|intro; exact I]. apply LV_in_LVT, all_str_errs.
+      (* the keys are looked-up items or nil: they hold a huge int only if the sequence does *)
+      eapply map_items_NH; [exact Hc|exact Em].
+    + destruct e; try discriminate Hm. unfold LVT, LV, isT. destruct h; reflexivity.
+  - (* SMap *) apply LV_in_LVT, liquid_filter_errs.
+    destruct args as [|key [|b r]]; try apply arity_LVT.
+    apply errs_in_bind.
+    + destruct (coerce_seq v); [exact I|]. apply py_str_LVT. eapply Forall_NH_1; eassumption.
+    + intro. pose proof (map_items_errs (match key with VStr _ _ => key | _ => some_str end) (coerce_seq v)) as Hm.
+      destruct (map_items _ (coerce_seq v)) as [[l|]|e|]; simpl in Hm; try contradiction; try exact I.
+      destruct e; try discriminate Hm. apply ELiquid_LVT; reflexivity.
+  - (* SGettext *) destruct (nth_len_ok lo hi args); [|apply arity_LVT].
+    destruct args as [|c [|b r]]; try (apply errs_in_bind; [apply py_str_LVT; assumption|intro; exact I]).
+    apply errs_in_bind; [apply py_str_LVT; assumption|intro].
+    apply errs_in_bind; [|intro; exact I]. destruct c; try exact I; apply py_str_LVT; eapply Forall_NH_1; eassumption.
+  - exact I. - exact I. - exact I. - exact I. - exact I. - exact I. - exact I. - exact I. - exact I.
 Qed.
 
 (* ------------------------------------------------------------------ expressions and tags; every site *)
@@ -538,6 +631,9 @@ Proof.
       apply errs_in_bind; [apply py_str_errs; assumption|intro; exact I]. }
     destruct v; try exact Hb. exact I.
   - (* STranslateCount *) apply errs_in_bind; [apply HQ, to_int_or_errs|intro; exact I].
+  - (* SOutAll *) apply errs_in_bind; [apply to_liquid_string_errs0; assumption|intro].
+    apply errs_in_bind; [apply all_out_errs; assumption|intro; exact I].
+  - (* STernary *) destruct args as [|a [|b [|c r]]]; exact I.
 Qed.
 
 (* ------------------------------------------------------------------ the theorems *)
